@@ -431,17 +431,38 @@ def run(repo, run, tier):
                              or any(pat.match(pat.parse("self.visit(node.left) + node.op + %s" % r_)[1], rets[0].value, {}) for r_ in rnames))
     run.check(R5, "todict.PrintNode.visit_BinaryOp", ok,
               "visit_BinaryOp no longer prints its operands in source order with the operator between them", tm.loc(bo))
-    # a unary right operand is parenthesised: `a - -b` must not become `a--b` (decrement in C, invalid in Fortran)
-    par = [a for a in ast.walk(bo) if isinstance(a, ast.Assign) and pat.match(pat.parse("MV_R = '(' + MV_R + ')'")[1], a, {})
-           and any("UnaryOp" in tm.seg(t) for t, pol in pyflow.dominating_tests(a, stop=bo) if pol)]
-    run.check(R5, "todict.PrintNode.visit_BinaryOp:unary-right", len(par) == 1 and par[0].targets[0].id in rnames,
-              "when the right operand of a binary operator is a unary expression it must be printed in parentheses "
-              "(`3 - -2` printed as `3--2` is a decrement in C and two consecutive operators in Fortran)", tm.loc(bo))
-    for name, needle in (("visit_ParenExpr", "'('+self.visit(node.node)+')'"),
-                         ("visit_UnaryOp", "node.op+self.visit(node.node)")):
-        fn = tm.func("PrintNode." + name)
-        run.check(R5, "todict.PrintNode.%s" % name, needle in _norm(tm.seg(fn)),
-                  "%s no longer prints its operands in source order with the operator between them" % name, tm.loc(fn))
+    # the text that follows an operator never begins with a sign: `a - -b`, `a - -b * 2` and `- -5` must not become `a--b`,
+    # `a--b*2`, `--5` (a decrement in C, two consecutive operators in Fortran).  Whether the operand text begins with a
+    # sign depends on its leftmost leaf, not on the class of the operand node, so the test looks at the text
+    def sign_wrapped(fn, operand_expr):
+        """name bound to the operand text, wrapped in parentheses under a test of its first character for + and -"""
+        names = [a.targets[0].id for a in ast.walk(fn) if isinstance(a, ast.Assign) and isinstance(a.targets[0], ast.Name)
+                 and operand_expr in tm.seg(a.value)]
+        for nm in names:
+            for a in ast.walk(fn):
+                if isinstance(a, ast.Assign) and pat.match(pat.parse("%s = '(' + %s + ')'" % (nm, nm))[1], a, {}):
+                    for t, pol in pyflow.dominating_tests(a, stop=fn):
+                        txt = str(tm.seg(t))
+                        first = ("%s[:1]" % nm in txt) or ("%s[0]" % nm in txt) or ("%s.startswith" % nm in txt)
+                        if pol and first and "'+'" in txt.replace('"', "'") and "'-'" in txt.replace('"', "'") or \
+                                pol and first and ("'+-'" in txt or "'-+'" in txt):
+                            return nm
+        return None
+    rn = sign_wrapped(bo, "self.visit(node.right)")
+    run.check(R5, "todict.PrintNode.visit_BinaryOp:unary-right", rn is not None and rn in rnames,
+              "the right operand of a binary operator must be parenthesised whenever its *text* begins with + or -: a test of the "
+              "operand's node class misses `a - -b * 2` (right operand is a product whose first factor is negated), printed "
+              "`a--b*2`", tm.loc(bo))
+    uo = tm.func("PrintNode.visit_UnaryOp")
+    un = sign_wrapped(uo, "self.visit(node.node)")
+    urets = [r for r in ast.walk(uo) if isinstance(r, ast.Return)]
+    oku = len(urets) == 1 and un is not None and pat.match(pat.parse("node.op + %s" % un)[1], urets[0].value, {})
+    run.check(R5, "todict.PrintNode.visit_UnaryOp", bool(oku),
+              "visit_UnaryOp must print the operator followed by the operand, the operand in parentheses when its text begins "
+              "with a sign (`- -5` printed as `--5` is a decrement in C and invalid Fortran)", tm.loc(uo))
+    fnp = tm.func("PrintNode.visit_ParenExpr")
+    run.check(R5, "todict.PrintNode.visit_ParenExpr", "'('+self.visit(node.node)+')'" in _norm(tm.seg(fnp)),
+              "visit_ParenExpr no longer prints its operand between parentheses", tm.loc(fnp))
     pp = dm.func("ExprParser.primary")
     run.check(R5, "declast.ExprParser.primary:ParenExpr", "ParenExpr(self.expression())" in dm.seg(pp),
               "parentheses must be kept as ParenExpr nodes (the printer relies on them)", dm.loc(pp))
